@@ -85,6 +85,37 @@ Definition vc_old_disagreements : list (vop * ty * ty) :=
   filter (fun c => negb (Bool.eqb (vc_defined_old true (fst (fst c)) (snd (fst c)) (snd c)) (vc_spec true (fst (fst c)) (snd (fst c)) (snd c))))
          (flat_map (fun o => flat_map (fun a => map (fun b => (o, a, b)) all_ty) all_ty) all_ops).
 
+(* ---- general comparisons (= != < <= > >=) on typed operands: iter_comparison_data (xpath_tokens/base.py) ----
+   both untypedAtomic: compared as strings; one untypedAtomic: it is cast to the type of the other operand by the Python
+   operators of UntypedAtomic (xs:double for a numeric operand) - the pair is comparable iff the other operand is
+   comparable with a value of its own type; neither untypedAtomic: the helper comparable_types decides *)
+Definition gc_comparable (ord : bool) (a b : ty) : bool :=
+  if ty_eqb a TBool || ty_eqb b TBool then ty_eqb a TBool && ty_eqb b TBool
+  else if numeric a then numeric b
+  else if in_ [TStr; TAnyURI] a then in_ [TStr; TAnyURI] b
+  else if ty_eqb a TQName then ty_eqb b TQName && negb ord
+  else if in_ [TDate; TDateTime; TTime; TGYear] a then ty_eqb a b && negb (ord && is_g a)
+  else if is_duration a then is_duration b && (negb ord || (ty_eqb a b && negb (ty_eqb a TDuration)))
+  else if is_bin a then ty_eqb a b
+  else ty_eqb a b.
+Definition gc_accepts (o : vop) (a b : ty) : bool :=
+  let ord := negb (is_eqop o) in
+  match ty_eqb a TUntyped, ty_eqb b TUntyped with
+  | true, true => true
+  | true, false => gc_comparable ord b b
+  | false, true => gc_comparable ord a a
+  | false, false => gc_comparable ord a b
+  end.
+Definition gc_defined (v31 : bool) (o : vop) (a b : ty) : bool :=
+  gc_accepts o a b &&
+  (if ty_eqb a TUntyped then (if ty_eqb b TUntyped then true else py_op_defined v31 o b b)
+   else if ty_eqb b TUntyped then py_op_defined v31 o a a else py_op_defined v31 o a b).
+(* XPath 2.0 3.5.2: an untypedAtomic operand is cast to xs:double against a numeric operand, to xs:string against an
+   untypedAtomic or a string, otherwise to the type of the other operand; then the value comparison applies *)
+Definition gc_cast (a b : ty) : ty :=
+  if ty_eqb a TUntyped then (if numeric b then TDbl else if ty_eqb b TUntyped || stringlike b then TStr else b) else a.
+Definition gc_spec (v31 : bool) (o : vop) (a b : ty) : bool := vc_spec v31 o (gc_cast a b) (gc_cast b a).
+
 (* ---- general comparison ---- *)
 Section General.
 Variable A : Type.
